@@ -244,6 +244,70 @@ def expectedFormatterCwdSites : List (Nat × Nat × Nat) :=
    (k! "format.py", k! "CodeFormatter.apply_ruff_lint", k! "subprocess.run"),
    (k! "format.py", k! "CodeFormatter.apply_ruff_formatter", k! "subprocess.run")]
 
+/-! ### module-level mutable objects (Gen/ModuleState) -/
+
+inductive EscapeTag where
+  | defaultOnlyTested      -- default value of a `formatters` parameter: handed down to `CodeFormatter.__init__`, where every use is
+                           -- `Formatter.X in formatters`; stored as `self.formatters`, an attribute nothing mutates (the table's `mutated`)
+  | calleeOnlyTestsMembership -- `transform_kwargs(kwargs, filter_)`: the callee's only use of the argument is `k in filter_`
+  deriving Repr, DecidableEq
+
+/-- every place where a module-level dict / list / set itself is handed on other than by an assignment to an attribute / a
+local / a class attribute: ((file, function, kind, target, constant), tag). An assignment row needs no entry as long as the new
+name is never mutated in place (`mutated = false`, recomputed from the source on every run). -/
+def reviewedModuleEscapes : List ((Nat × Nat × Nat × Nat × Nat) × EscapeTag) :=
+  [((k! "__init__.py", k! "generate", k! "default", k! "", k! "DEFAULT_FORMATTERS"), .defaultOnlyTested),
+   ((k! "format.py", k! "CodeFormatter.__init__", k! "default", k! "", k! "DEFAULT_FORMATTERS"), .defaultOnlyTested),
+   ((k! "parser/base.py", k! "Parser.__init__", k! "default", k! "", k! "DEFAULT_FORMATTERS"), .defaultOnlyTested),
+   ((k! "parser/graphql.py", k! "GraphQLParser.__init__", k! "default", k! "", k! "DEFAULT_FORMATTERS"), .defaultOnlyTested),
+   ((k! "parser/jsonschema.py", k! "JsonSchemaParser.__init__", k! "default", k! "", k! "DEFAULT_FORMATTERS"), .defaultOnlyTested),
+   ((k! "parser/openapi.py", k! "OpenAPIParser.__init__", k! "default", k! "", k! "DEFAULT_FORMATTERS"), .defaultOnlyTested),
+   ((k! "model/pydantic/types.py", k! "DataTypeManager.get_data_bytes_type", k! "arg", k! "self.transform_kwargs", k! "byes_kwargs"), .calleeOnlyTestsMembership),
+   ((k! "model/pydantic/types.py", k! "DataTypeManager.get_data_decimal_type", k! "arg", k! "self.transform_kwargs", k! "number_kwargs"), .calleeOnlyTestsMembership),
+   ((k! "model/pydantic/types.py", k! "DataTypeManager.get_data_float_type", k! "arg", k! "self.transform_kwargs", k! "number_kwargs"), .calleeOnlyTestsMembership),
+   ((k! "model/pydantic/types.py", k! "DataTypeManager.get_data_int_type", k! "arg", k! "self.transform_kwargs", k! "number_kwargs"), .calleeOnlyTestsMembership),
+   ((k! "model/pydantic/types.py", k! "DataTypeManager.get_data_str_type", k! "arg", k! "self.transform_kwargs", k! "string_kwargs"), .calleeOnlyTestsMembership)]
+
+/-- aliases of a module-level mutable object whose new name IS mutated in place somewhere, reviewed as harmless: none.
+(`self.field_keys = DEFAULT_FIELD_KEYS` + `self.field_keys.update(…)` would be one: every later parser sees the keys.) -/
+def reviewedMutatedAliases : List (Nat × Nat × Nat × Nat × Nat) := []
+
+/-- in-place mutations of a module-level mutable object under its own name, reviewed as harmless
+((file, function, constant, operation)): none — the unchanged tree has no such statement. -/
+def reviewedModuleWrites : List (Nat × Nat × Nat × Nat) := []
+
+/-- module-level objects the review is about, which must still be in the regenerated table (otherwise it talks about nothing) -/
+def expectedModuleMutables : List (Nat × Nat × Nat) :=
+  [(k! "parser/jsonschema.py", k! "DEFAULT_FIELD_KEYS", k! "set"),
+   (k! "parser/jsonschema.py", k! "EXCLUDE_FIELD_KEYS", k! "set"),
+   (k! "format.py", k! "DEFAULT_FORMATTERS", k! "list"),
+   (k! "reference.py", k! "DEFAULT_FIELD_NAME_RESOLVERS", k! "dict")]
+
+inductive OutsideTag where
+  | packageTemplateFile   -- `get_template(template_file_path)`: compiles the Jinja2 template FILE of that path once per process. For
+                          -- the package's own templates the file is installation data. With `custom_template_dir` the path lies in
+                          -- the user's directory: a template edited between two generate() calls of one interpreter is not re-read
+                          -- (a genuine history dependence of the unchanged code: known finding C08-template-cache, met by the history-pair runs)
+  deriving Repr, DecidableEq
+
+/-- process-wide memoised functions whose result depends on state OUTSIDE their arguments (file content, environment, clock):
+((file, function), tag). A cache keyed by a PATH returns what the file held at the first call — `cache_transparent` needs `f` to
+be a function of its argument. -/
+def reviewedOutsideCaches : List ((Nat × Nat) × OutsideTag) :=
+  [((k! "model/base.py", k! "get_template"), .packageTemplateFile)]
+
+/-- process-wide memoised functions reviewed as functions of their arguments only (strings, flags, a compiled pattern): the
+translator finds no path-like parameter and no call that reads the file system / environment / clock in them. A NEW memoised
+function is on neither list. -/
+def reviewedPureCaches : List (Nat × Nat) :=
+  [(k! "imports.py", k! "Import.from_full_path"),
+   (k! "parser/jsonschema.py", k! "get_ref_type"),
+   (k! "reference.py", k! "camel_to_snake"),
+   (k! "reference.py", k! "get_singular_name"),
+   (k! "reference.py", k! "snake_to_upper_camel"),
+   (k! "types.py", k! "_remove_none_from_type"),
+   (k! "types.py", k! "get_optional_type")]
+
 /-! ### generic definitions used by the lemmas -/
 
 /-- a memo table and lookup-or-compute (`functools.lru_cache` without eviction) -/
